@@ -317,3 +317,20 @@ def stores(fi_or_node, pattern) -> list[tuple[ast.stmt, ast.AST]]:
                 if _match_chain(chain(e), pattern):
                     out.append((n, e))
     return out
+
+
+def unreachable_assuming(cfg: CFG, site, contradicts) -> bool:
+    """
+    True iff `site` cannot be reached from the function entry by paths that never take a condition edge whose fact
+    contradicts an assumption: contradicts(Fact) -> bool is asked for every (atom, outcome) edge.  This decides guards
+    written as one compound test (`if a and not b and not c: return`), which leave no single dominating atom fact.
+    """
+    nodes = cfg.nodes_for(site) if not isinstance(site, Node) else [site]
+
+    def cut(u, v, lab):
+        if u.kind in ("cond", "loop") and lab in (True, False) and u.ast is not None:
+            return bool(contradicts(fact_of(u.ast, lab)))
+        return False
+    r = cfg.reach(cut_edge=cut)
+    return not any(n in r for n in nodes)
+
